@@ -15,7 +15,7 @@ func init() {
 		"Decides necessary conditions of linearizability that are visible in the code's shape: the table's update function runs exactly once per call, under the bucket lock, atomically with the store of its result, after the resize re-checks (C15.once/rmw/recheck/keycheck/atomic/publish/current, re-run here); the lock-free lookup examines every candidate slot of the chain (C15.scan) against the writers' meta-before-pointer order (C15.metaorder); the cache mutates its table only through that computation (C02.mutators); automatic removal unlinks a mapping only if the mapped node is the victim itself (C02.victim); key/value/weight of a node never change after construction and its mutable fields are atomic (C02.immut); the user's remapping function runs exactly once per Compute* call also when it panics (C01.step callback rows); the in-flight record is cleared inside every mutating computation (C09.clear); lock order is acyclic - nothing reachable from a table computation takes the eviction lock, waits for a load or dispatches a loader, and the in-flight table's computations never touch the main table (C02.lockorder). "+
 			"NOT decided: linearizability itself (histories x schedules) - that needs a history or model checker, a different family.",
 		[]string{"sync.Mutex / sync/atomic semantics"},
-		ruleC15Once, ruleC15RMW, ruleC15Recheck, ruleC15KeyCheck, ruleC15Atomic, ruleC15Publish, ruleC15Current, ruleC15LockPair, ruleC15CopyAll, ruleC15CopyLock, ruleC15Scan, ruleC15MetaOrder, ruleC02Mutators, ruleEvict, ruleC02Immut, ruleC02LockOrder, ruleC09Clear, ruleC09Guard, ruleC01Step, ruleC18Hash)
+		ruleC15Once, ruleC15RMW, ruleC15Recheck, ruleC15KeyCheck, ruleC15Atomic, ruleC15Publish, ruleC15Current, ruleC15LockPair, ruleC15CopyAll, ruleC15CopyLock, ruleC15Scan, ruleC15MetaOrder, ruleC02Mutators, ruleEvict, ruleC02Immut, ruleC02LockOrder, ruleC09Clear, ruleC09Guard, ruleC01Step, ruleC18Hash, ruleC15SrcReadOnly)
 }
 
 func ruleC02Mutators(cx *Ctx) {
